@@ -173,7 +173,8 @@ NODE_RULE = ("node profile: histories of the aol / pnft / burn generators decora
              "queries at committed heights (random past heights, 0 = latest, heights not yet committed). The extracted model answers the "
              "same lines (committed versions, lost block, historical query). On the implementation alone: a twin application fed only the "
              "committed blocks must return byte-identical DeliverTx responses and application hashes; after a restart height and hash must "
-             "be those of the last Commit; with -conc N background goroutines query fixed and latest heights while blocks execute and "
+             "be those of the last Commit; 'ghost' transactions (simulated but never delivered, or delivered with a last message that fails) "
+             "whose would-be effects later transactions rely on; every Q/QH answer is also asked of the twin; with -conc N background goroutines query fixed and latest heights while blocks execute and "
              "every answer served at height h must be the one answer of height h (re-checked at rest)")
 prop(id="C20", vfile="Properties/C20.v",
      runs=lambda tier, seed: [dict(profile="keystore", seed=seed, n=_sizes(tier, 1, 6)),
@@ -212,7 +213,7 @@ prop(id="C08", vfile="Properties/C08.v",
              "C08_invalid_utf8_refuted); the PNFT raw store loses x/nft's zero supply counters, which no query can observe")
 
 prop(id="C10", vfile="Properties/C10.v",
-     runs=lambda tier, seed: [dict(profile="node", seed=seed, n=_sizes(tier, 30, 2500), extra=["-blocks", "10"])],
+     runs=lambda tier, seed: [dict(profile="node", seed=seed, n=_sizes(tier, 60, 2500), extra=["-blocks", "10"])],
      rule=NODE_RULE, assumptions=CHAIN_ASSUME + [
          "Node/Model.v models baseapp + the versioned multistore: Commit appends an immutable version, the deliver state is a branch that only "
          "Commit writes through, LoadLatestVersion resumes at the last version; the store implementation (IAVL, cache stores) is SDK code, "
@@ -221,7 +222,7 @@ prop(id="C10", vfile="Properties/C10.v",
              "losing the process memory with an intact database — torn database writes inside Commit are outside the model")
 
 prop(id="C09", vfile="Properties/C09.v",
-     runs=lambda tier, seed: [dict(profile="node", seed=seed + 7, n=_sizes(tier, 30, 2500), extra=["-blocks", "10", "-conc", "2"]),
+     runs=lambda tier, seed: [dict(profile="node", seed=seed + 7, n=_sizes(tier, 60, 2500), extra=["-blocks", "10", "-conc", "2"]),
                               dict(profile="aollist", seed=seed, n=_sizes(tier, 10, 500), extra=["-blocks", "4"])],
      rule=NODE_RULE + " || the twin replica is a second application object in the same process initialised from the same genesis bytes "
           "(Go randomises map iteration per range statement, so map order differs between the two); thorough also re-runs the profile in "
